@@ -2,6 +2,7 @@ package props
 
 import (
 	"fmt"
+	"github.com/zclconf/go-cty/cty"
 	"regexp"
 	"sort"
 	"strconv"
@@ -645,4 +646,99 @@ func oracleTokenStructure(c *caseCtx, q core.Query, r core.Result) {
 // isHookCandidate recognises the candidates produced by the harness' own completion hooks.
 func isHookCandidate(cand lang.Candidate) bool {
 	return cand.Detail == "from hook" || cand.Detail == "instance type" || cand.Detail == "local module" || cand.Detail == "registry module"
+}
+
+// oracleTokenCallArgs: a call whose name got a function-name token is a call the
+// decoder interprets with the function's signature; every literal argument whose
+// type is the parameter's type (or whose parameter is dynamically typed) is then a
+// schema-known element of its own and must carry a literal token - for fixed,
+// variadic and variadic-only signatures alike.
+func oracleTokenCallArgs(c *caseCtx, q core.Query, r core.Result) {
+	if q.Kind != core.QSemTokens || r.Panic != nil || r.Err != nil {
+		return
+	}
+	toks, ok := r.Value.([]lang.SemanticToken)
+	if !ok {
+		return
+	}
+	pc := c.Env.PathCtx[q.Path]
+	if pc == nil || pc.Files[q.File] == nil {
+		return
+	}
+	body, ok := pc.Files[q.File].Body.(*hclsyntax.Body)
+	if !ok {
+		return
+	}
+	if _, diags := hclsyntax.ParseConfig(pc.Files[q.File].Bytes, q.File, hcl.InitialPos); diags.HasErrors() {
+		return
+	}
+	type key struct {
+		t    lang.SemanticTokenType
+		s, e int
+	}
+	have := map[key]bool{}
+	for _, t := range toks {
+		have[key{t.Type, t.Range.Start.Byte, t.Range.End.Byte}] = true
+	}
+	hclsyntax.VisitAll(body, func(n hclsyntax.Node) hcl.Diagnostics {
+		fc, ok := n.(*hclsyntax.FunctionCallExpr)
+		if !ok {
+			return nil
+		}
+		fs, known := pc.Functions[fc.Name]
+		if !known || !have[key{lang.TokenFunctionName, fc.NameRange.Start.Byte, fc.NameRange.End.Byte}] {
+			return nil
+		}
+		for i, a := range fc.Args {
+			var pt cty.Type
+			switch {
+			case i < len(fs.Params):
+				pt = fs.Params[i].Type
+			case fs.VarParam != nil:
+				pt = fs.VarParam.Type
+			default:
+				continue // surplus argument
+			}
+			var lt cty.Type
+			var tt lang.SemanticTokenType
+			switch e := a.(type) {
+			case *hclsyntax.LiteralValueExpr:
+				if e.Val.IsNull() {
+					continue
+				}
+				lt = e.Val.Type()
+				switch lt {
+				case cty.Number:
+					tt = lang.TokenNumber
+				case cty.Bool:
+					tt = lang.TokenBool
+				default:
+					continue
+				}
+			case *hclsyntax.TemplateExpr:
+				if !e.IsStringLiteral() {
+					continue
+				}
+				lt, tt = cty.String, lang.TokenString
+			default:
+				continue
+			}
+			if pt != cty.DynamicPseudoType && pt != lt {
+				continue // conversions are the library's business
+			}
+			shape := "fixed"
+			if i >= len(fs.Params) {
+				shape = "variadic"
+				if len(fs.Params) == 0 {
+					shape = "variadic-only"
+				}
+			}
+			c.Rep.NonTrivial("call-arg|" + shape + "|" + string(tt))
+			ar := a.Range()
+			if !have[key{tt, ar.Start.Byte, ar.End.Byte}] {
+				c.Rep.Violation(c.witness("TOKEN-CALL-ARG missing type="+string(tt)+" param="+shape, fmt.Sprintf("the call of %s at %s has a function-name token, but its literal argument #%d at %s has no %s token", fc.Name, fmtRange(fc.NameRange), i, fmtRange(ar), tt), q, nil))
+			}
+		}
+		return nil
+	})
 }
